@@ -20,7 +20,7 @@ def gen_datagrams(rng, n):
     """returns list of (label, bytes)"""
     out = []
     valid = [
-        N.enc_req(N.RRQ, "probe.bin"), N.enc_req(N.WRQ, "up.bin"), N.enc_req(N.RRQ, "probe.bin", options=[("blksize", 512), ("tsize", 0), ("timeout", 1), ("windowsize", 4)]),
+        N.enc_req(N.RRQ, "victim.bin"), N.enc_req(N.WRQ, "up.bin"), N.enc_req(N.RRQ, "victim.bin", options=[("blksize", 512), ("tsize", 0), ("timeout", 1), ("windowsize", 4)]),
         N.enc_req(N.WRQ, "up2.bin", options=[("blksize", 1024), ("tsize", 100)]), N.enc_data(1, b"x" * 100), N.enc_data(0, b""), N.enc_ack(0), N.enc_ack(1), N.enc_ack(65535),
         N.enc_error(0, b"bye"), N.enc_error(7, b""), N.enc_oack([("blksize", 512)]), N.enc_oack([]),
     ]
@@ -46,9 +46,9 @@ def gen_datagrams(rng, n):
                 out.append(("long-utf8-name", N.enc_req(N.RRQ, name)))
                 out.append(("long-utf8-name", N.enc_req(N.WRQ, name)))
                 out.append(("long-utf8-name", N.enc_req(N.RRQ, "sub/" + name)))
-            out.append(("long-utf8-field", N.enc_req(N.RRQ, "probe.bin", mode=("a" * lead + ch * 60).encode())))
+            out.append(("long-utf8-field", N.enc_req(N.RRQ, "victim.bin", mode=("a" * lead + ch * 60).encode())))
             out.append(("long-utf8-field", N.enc_error(1, ("a" * lead + ch * 150).encode())))
-            out.append(("long-utf8-field", N.enc_req(N.RRQ, "probe.bin", options=[("a" * lead + ch * 40, "1")])))
+            out.append(("long-utf8-field", N.enc_req(N.RRQ, "victim.bin", options=[("a" * lead + ch * 40, "1")])))
     # abandoned uploads: accepted, then the client never sends anything (the worker lingers for 6 x timeout), followed
     # by further requests for the same names
     for _ in range(12):
@@ -58,7 +58,7 @@ def gen_datagrams(rng, n):
             out.append(("abandoned-upload", N.enc_req(N.RRQ, nm)))
     # (iv) option boundary values, each option alone and combined
     uniq = 0
-    for kind, name in ((N.RRQ, "probe.bin"), (N.WRQ, None)):
+    for kind, name in ((N.RRQ, "victim.bin"), (N.WRQ, None)):
         for on in OPTNAMES:
             for val in BOUNDARY:
                 uniq += 1
@@ -190,6 +190,7 @@ def one_run(tftpd, flavor, single, rw, dgrams, sb, rng_seed):
     rng = random.Random(rng_seed)
     content = N.keyed_content("probe", 700)
     write(os.path.join(sb["srv"], "probe.bin"), content)
+    write(os.path.join(sb["srv"], "victim.bin"), N.keyed_content("victim", 700))
     cfg = f"{flavor}/{'single' if single else 'multi'}/{rw}"
     res = {"cfg": cfg, "sent": 0, "probes": 0, "failure": None, "labels": {}, "replies": {}}
 
